@@ -284,6 +284,7 @@ theorem undelFileLink_refused_restores (c : Cfg) (v pSect : Nat) (entry : Blk) (
     (hwf : TableWF (s.mem.vol v).bitmapTable) (hfree : bmIsFree (s.mem.vol v).bitmapTable (entry.w F_headerKey) = true) :
     Post AnyFault c (undelFileLink v pSect entry data exts) s (fun r s' => r.2 = none → FreeMapEq v s.mem s'.mem) := by
   unfold undelFileLink
+  apply Post.bind; apply Post.getVolCfg
   apply Post.bind; apply setBlockUsed_spec
   intro s1 h2 hpg htbl _ _ _ _ _
   have h1 : Part v (s.mem.vol v).bitmapTable [entry.w F_headerKey] [] s1.mem :=
@@ -328,6 +329,17 @@ theorem undelFileLink_refused_restores (c : Cfg) (v pSect : Nat) (entry : Blk) (
           · exact Or.inr (Or.inr h)
           · exact Or.inr (Or.inl h)
           · exact Or.inl h
+      apply Post.bind
+      refine Post.mono _ _ _ (fun (_ : Bool) s' => s3 = s') _ ?_ ?_
+      · split
+        · apply hasFreeBlocks_pure; intro b; rfl
+        · exact Post.pure _ _ _ _ rfl
+      intro room s3' hs3
+      subst hs3
+      by_cases hroom : (!room) = true
+      · rw [if_pos hroom]
+        exact giveBack_exitR c v _ _ _ _ [] rcVolFull s _ hp3 hM
+      rw [if_neg hroom]
       apply Post.bind; apply readEntryBlock_mem
       rintro ⟨rc, parent⟩ s4 hm4
       dsimp only
